@@ -39,7 +39,7 @@ def plan(tier, seed):
         b = Build("att_" + d["name"], ["harness/att/att_harness.cpp"], flags=['-DDECL_HEADER="%s"' % path], extra_key=h,
                   mem_limit_kb=5 * 1024 * 1024, opt="-O0" if tier == "quick" else "-O1")
         runs.append(Run(b, ["--seed=%d" % seed, "--ops=%d" % ops], timeout=2400, skippable=True, tag="att %s max" % d["name"]))
-        if tier == "thorough" or d["name"] in ("long_values_65", "queue_targets", "encryption_matrix", "many_cccd"):
+        if tier == "thorough" or d["name"] in ("long_values_65", "queue_targets", "encryption_matrix", "many_cccd", "small_queue"):
             runs.append(Run(b, ["--seed=%d" % (seed + 7919), "--ops=%d" % (ops // 2), "--exact=1"], timeout=2400, skippable=True,
                             tag="att %s exact" % d["name"]))
     return runs
